@@ -25,7 +25,7 @@ def crossings(rhomax, lo=100, hi=1300):
     return _CROSS[key]
 
 
-def gpo_cfgs(tier, base_id, algos=("GPO", "PCT", "VPCT"), patterns=("g", "neg", "tied", "peak", "decay", "decay")):
+def gpo_cfgs(tier, base_id, algos=("GPO", "PCT", "VPCT"), patterns=("g", "neg", "tied", "peak", "decay", "decay", "negrun", "negrun")):
     rnd = random.Random(C.seed() + 31)
     cfgs = []
     i = base_id
@@ -54,7 +54,7 @@ def gpo_cfgs(tier, base_id, algos=("GPO", "PCT", "VPCT"), patterns=("g", "neg", 
     return cfgs
 
 
-def poo_cfgs(tier, base_id, patterns=("g", "neg", "tied", "peak")):
+def poo_cfgs(tier, base_id, patterns=("g", "neg", "tied", "peak", "negrun")):
     rnd = random.Random(C.seed() + 37)
     cfgs = []
     i = base_id
